@@ -3,10 +3,11 @@ Write-site inventory for C18 (DESIGN §5 C18): every place in src/lian that can 
 something on disk, as (file below src/lian, enclosing class.function, call).  The harness repeats the
 textual scan on every run (`harness/lv/c18_sites.py`) and reports a site that is not listed here as a
 correspondence break: the model of C18 covers `WorkspaceBuilder.{prepare_directory, manage_directory,
-copytree_with_extension, run}`; the other sites are tied by the end-to-end snapshot oracle only
-(`DataModel.save` ← Loader paths built from `options.workspace`; taint output; SFG dot files) or are
-switched off in the modelled configuration (`backup_workspace` / `cleanup_directory`: --incremental;
-`preprocess_c_like_file`: -I; `BasicGraph.save_png`: never called).
+copytree_with_extension, run}`.  The other sites are not modelled and are judged by the snapshot oracle
+only: `backup_workspace` / `cleanup_directory` (--incremental) and `preprocess_c_like_file` (-I, with a
+stub clang) by the flag family of in-process placements and a few subprocess runs; `DataModel.save`
+(← Loader paths built from `options.workspace`), the taint output and the SFG dot files by the complete
+subprocess runs; `BasicGraph.save_png` is never called.
 -/
 namespace LianVerif.WorkspaceSites
 
@@ -14,6 +15,7 @@ def writeSites : List (String × String × String) := [
   ("common_structs.py", "BasicGraph.save_png", ".savefig"),
   ("core/sfg_dumper.py", "SFGDumper.dump_to_file", "open(w)"),
   ("preparation.py", "WorkspaceBuilder.backup_workspace", "os.makedirs"),
+  ("preparation.py", "WorkspaceBuilder.backup_workspace", "os.symlink"),
   ("preparation.py", "WorkspaceBuilder.backup_workspace", "shutil.copy2"),
   ("preparation.py", "WorkspaceBuilder.backup_workspace", "shutil.copytree"),
   ("preparation.py", "WorkspaceBuilder.cleanup_directory", "os.unlink"),
